@@ -423,8 +423,105 @@ def c03(ctx):
     unary_rule(ctx, "C03.R1")
     fold_rule(ctx, "C03.R3")
     incdec_rule(ctx, "C03.R4")
+    rep.rule("C03.R7", "leaves of expression evaluation: the literal table (mysterious -> Undefined, null -> Null, true/false -> that Boolean, "
+             "a number -> that Number, a string -> that String) computed by KIND over all literal kinds; a poetic number literal -> "
+             "Number(compute_value of that literal); a subscript expression -> index(value of .array, value of .subscript) with the array "
+             "evaluated first; a name / pronoun -> a clone of the looked-up value, lookup errors propagated")
+    leaves_rule(ctx, "C03.R7")
     n = kind_rules.compare_with_reference(ctx, "C03.R5", "binary", ["plus", "subtract", "multiply", "divide", "equals", "compare"])
     n += kind_rules.compare_with_reference(ctx, "C03.R5", "unary", ["negate", "is_truthy", "inc", "decay", "to_string_for_output"])
     rep.floor("C03.R5", n, 246, "table cells")
     term_anchor_rule(ctx, "C03.R5")
     rendering_rule(ctx, "C03.R6")
+
+
+
+def leaves_rule(ctx, rule):
+    F, rep = ctx.F, ctx.rep
+    PV = "exec::produce_val::ProduceVal"
+    LE = "frontend::ast::LiteralExpression"
+    WR = "frontend::ast::WithRange"
+    fn = find_method(F, VE, "visit_literal_expression", PV)
+    if fn is None:
+        rep.fail(rule, "anchor::visit_literal_expression", "ProduceVal::visit_literal_expression not found")
+    else:
+        rep.analysed(fn)
+        I = kind.Interp(F)
+        want = {"Mysterious": ((), "Ok(ProduceValOutput(U))"), "Boolean": ((("sym", "b"),), "Ok(ProduceValOutput(B(b)))"), "Null": ((), "Ok(ProduceValOutput(L))"),
+                "Number": ((("sym", "n"),), "Ok(ProduceValOutput(N(n)))"), "String": ((("sym", "s"),), "Ok(ProduceValOutput(S(s)))")}
+        kinds = {v["name"] for v in F.adts.get(LE, {"variants": []})["variants"]}
+        ok = kinds == set(want)
+        rep.ob(rule, "literal::kinds", ok, "" if ok else "literal kinds are %s, the table knows %s" % (sorted(kinds), sorted(want)), fn.loc(), how=str(sorted(kinds)))
+        for v, (args, w) in sorted(want.items()):
+            if v not in kinds:
+                continue
+            e = E(WR, "WithRange", E(LE, v, *args), ("sym", "range"))
+            got = {kt.term(o.ret) for o in I.run(fn, [("sym", "self"), e])}
+            ok = got == {w}
+            rep.ob(rule, "literal::" + v, ok, "" if ok else "the literal %s evaluates to %s, the rule is %s" % (v, sorted(got), w), fn.loc(), how=w)
+        rep.exhaustive["C03.R7 literal kinds"] = True
+    # poetic number literal
+    fn = find_method(F, VE, "visit_poetic_number_literal", PV)
+    if fn is None:
+        rep.fail(rule, "anchor::visit_poetic_number_literal", "ProduceVal::visit_poetic_number_literal not found")
+    else:
+        rep.analysed(fn)
+        I = kind.Interp(F, models={"frontend::ast::PoeticNumberLiteral::compute_value": lambda I_, f, st, t, args, depth: iter([(("call", "compute_value", (kind._short(args[0]),)), None, ())])})
+        got = {kt.term(o.ret) for o in I.run(fn, [("sym", "self"), ("sym", "p")])}
+        ok = got == {"Ok(ProduceValOutput(N(compute_value(p))))"}
+        rep.ob(rule, "poetic::Number(compute_value)", ok, "" if ok else "a poetic number literal evaluates to %s" % sorted(got), fn.loc(), how="N(compute_value(p))")
+    # subscript: index(array value, subscript value), array first
+    fn = find_method(F, VE, "visit_array_subscript", PV)
+    if fn is None:
+        rep.fail(rule, "anchor::visit_array_subscript", "ProduceVal::visit_array_subscript not found")
+    else:
+        rep.analysed(fn)
+        idx = [(bi, t) for bi, t in fn.calls() if callee_def(t) == "exec::val::Val::index"]
+        ok, why = len(idx) == 1, "" if len(idx) == 1 else "expected one call of Val::index, found %d" % len(idx)
+        if ok:
+            bi, t = idx[0]
+            def child_of(op):
+                fields = set()
+                for d, p in kind_deep(fn, op):
+                    if d == ("param", 2) and p:
+                        fields.add(p[0])
+                return fields
+            a, b = child_of(t["args"][0]), child_of(t["args"][1])
+            if a != {"array"} or b != {"subscript"}:
+                ok, why = False, "Val::index is applied to (value of %s, value of %s), not (array, subscript)" % (sorted(a), sorted(b))
+            else:
+                ev = [(b2, t2) for b2, t2 in fn.calls() if (t2["callee"].get("name") or "").startswith("visit_")]
+                order = []
+                for b2, t2 in ev:
+                    fs = set()
+                    for d, p in kind_deep(fn, t2["args"][1]) if len(t2["args"]) > 1 else []:
+                        if d == ("param", 2) and p:
+                            fs.add(p[0])
+                    order.append((b2, fs))
+                arr = [b2 for b2, fs in order if fs == {"array"}]
+                sub = [b2 for b2, fs in order if fs == {"subscript"}]
+                if len(arr) != 1 or len(sub) != 1 or not fn.dominates(arr[0], sub[0]):
+                    ok, why = False, "the array operand is not evaluated (once) before the subscript"
+                elif not flows_into_(fn, bi, {"copy": {"l": 0, "p": []}}):
+                    ok, why = False, "the result of Val::index is not what the expression yields"
+        rep.ob(rule, "subscript::index(array,subscript)", ok, why, fn.loc(), how="array first, then subscript, index(array, subscript) returned")
+    # names and pronouns: a clone of the looked-up value
+    for m, look in (("visit_variable_name", "lookup_var"), ("visit_pronoun", "last_access")):
+        fn = find_method(F, VE, m, PV)
+        if fn is None:
+            rep.fail(rule, "anchor::" + m, "ProduceVal::%s not found" % m)
+            continue
+        rep.analysed(fn)
+        names = set()
+        for body in F.with_closures(fn):
+            for bi, t in body.calls():
+                names.add(t["callee"].get("name"))
+        looks = [(bi, t) for bi, t in fn.calls() if t["callee"].get("name") == look]
+        ok = len(looks) == 1 and "clone" in names and flows_into_(fn, looks[0][0], {"copy": {"l": 0, "p": []}})
+        rep.ob(rule, "leaf::" + m, ok, "" if ok else "%s does not yield a clone of the value found by %s (calls: %s)" % (m, look, sorted(n for n in names if n)), fn.loc(),
+               how="%s(..).map(clone) returned, error converted" % look)
+
+
+def flows_into_(fn, src_bb, operand):
+    from .common import flows_into
+    return flows_into(fn, src_bb, operand)
